@@ -8,7 +8,7 @@
   c14 <field> mulacc <list a> <list b (base-field values)> <c>
   c14 nat group|flat|transpose <N> <list>      (`flat`: list of arrays `a,b;c,d`)
   c14 plan <len> <threads> <min>               chunk plan `off:len;off:len`
-Answer: a list in the same format, or `abort` for a panic. -/
+Answer: a list in the same format (`empty` for the empty list), or `abort` for a panic. -/
 import Wf.Model.BatchUtils
 import Wf.Drv.Fields
 namespace Wf.Drv
@@ -20,9 +20,13 @@ def parseElemList (s : String) : Option (List (List Nat)) :=
 def showElemList (es : List (List Nat)) : String :=
   if es.isEmpty then "-" else ";".intercalate (es.map showElem)
 
+/-- answers: `empty` for the empty list (`-` is the check driver's "no oracle" marker) -/
+def ansList (es : List (List Nat)) : String :=
+  if es.isEmpty then "empty" else showElemList es
+
 def showOptList {F} (v : VField F) : Option (List F) → String
   | none => "abort"
-  | some xs => showElemList (xs.map v.toCanon)
+  | some xs => ansList (xs.map v.toCanon)
 
 /-- pick the field instance by name and run `k` on it -/
 def withField (fld : String) (k : {F : Type} → VField F → Option String) : Option String :=
@@ -74,7 +78,7 @@ def runBatchOp {F} (v : VField F) (op : String) (args : List String) : Option St
 
 def showNested : Option (List (List Nat)) → String
   | none => "abort"
-  | some xss => showElemList xss
+  | some xss => ansList xss
 
 def handleBatchUtils : List String → String
   | ["plan", len, t, m] =>
@@ -96,7 +100,7 @@ def handleBatchUtils : List String → String
         | some xs => showNested (transposeSlice n xs)
         | none => "bad-op"
       | "flat" => match parseElemList xs with
-        | some xss => showElem (flattenElements xss) |> fun s => if s.isEmpty then "-" else s
+        | some xss => showElem (flattenElements xss) |> fun s => if s.isEmpty then "empty" else s
         | none => "bad-op"
       | _ => "bad-op"
   | fld :: op :: args => (withField fld (fun v => runBatchOp v op args)).getD "bad-op"
